@@ -92,14 +92,43 @@ type c09Run struct {
 	seen   map[string]int        // incarnation -> times offered by Accept
 	opened map[string]bool       // reliable incarnations whose creator got as far as writing the header
 	idOf   map[string]byte       // incarnation -> the tube id its creator was given
+	bornOf map[string]time.Duration // incarnation -> when its creation began
+	shut   map[byte]c09Shut         // reliable tube id -> when its last locally created incarnation finished closing, and its RTT then
+	prevOf map[string]c09Shut       // incarnation -> the closing of its predecessor on the same id, as known when it was created
+	early  string                   // set when a reliable identifier was handed out again well inside the reaper's quarantine
 	born   map[byte][]time.Duration // tube id -> times (since the network started) at which its incarnations began to be created
 	pkts   map[byte][]c09Pkt        // tube id -> every packet that carried it: when sent, when its copies are delivered
 	wg     sync.WaitGroup
 }
 
+type c09Shut struct {
+	at  time.Duration
+	rtt time.Duration
+	key string
+}
+
 type c09Pkt struct {
 	sent time.Duration
 	dlv  []time.Duration
+	dir  int  // 0: A -> B
+	req  bool // REQ flag set, REL flag set (open request of a reliable tube)
+}
+
+// reqDelivered: an open request for reliable tube id that was sent by side while this incarnation held the id (from
+// its creation until the id's next incarnation began to be created) reached the other side.
+func (r *c09Run) reqDelivered(side int, id byte, born time.Duration) bool {
+	next := time.Duration(1<<62 - 1)
+	for _, b := range r.born[id] {
+		if b > born && b < next {
+			next = b
+		}
+	}
+	for _, p := range r.pkts[id] {
+		if p.req && p.dir == side && p.sent >= born && p.sent < next && len(p.dlv) > 0 {
+			return true
+		}
+	}
+	return false
 }
 
 // crossed: some packet carrying tube id was sent before one of the id's incarnations began to be created and was
@@ -236,6 +265,12 @@ func (r *c09Run) fail(sig, f string, a ...any) {
 	r.mu.Lock()
 	defer r.mu.Unlock()
 	if r.v.OK() {
+		if r.early != "" && strings.HasPrefix(sig, "C09:") {
+			// whatever shows in a case where this happened is not the open protocol-level finding (which presupposes
+			// that the quarantine was observed and was merely too short for the network)
+			r.v.Failf(sig+":identifier-reused-within-quarantine", "["+r.early+"] "+f, a...)
+			return
+		}
 		if r.c.Late && strings.HasPrefix(sig, "C09:") {
 			// packets may outlive their tube by seconds in this regime: frames carry no incarnation, so what
 			// fails here is a different (protocol-level) root cause than the same symptom in the bounded regime
@@ -287,6 +322,15 @@ func (r *c09Run) creator(wi int, w c09Worker) {
 		r.live[w.Side][relIdx][id] = c09Live{key, tb}
 		r.idOf[key] = id
 		r.born[id] = append(r.born[id], bornAt)
+		r.bornOf[key] = bornAt
+		if sh, ok := r.shut[id]; ok && w.Rel {
+			r.prevOf[key] = sh
+		}
+		if sh, ok := r.shut[id]; ok && w.Rel && r.early == "" && r.p.Net.Elapsed()-sh.at < 2*sh.rtt {
+			// the muxer keeps a locally opened reliable tube's identifier for 4 x RTT after it closed (reapTube); half of
+			// that is taken here so that the classification never depends on rounding
+			r.early = fmt.Sprintf("id %d of %s (closed at %v, RTT %v) was handed out again for %s at %v", id, sh.key, sh.at, sh.rtt, key, r.p.Net.Elapsed())
+		}
 		r.mu.Unlock()
 		wantParity := byte(1 - w.Side) // A is the client muxer (odd ids), B the server muxer (even ids)
 		if id%2 != wantParity {
@@ -328,11 +372,22 @@ func (r *c09Run) creator(wi int, w c09Worker) {
 		// the id becomes reusable once the tube has finished closing
 		closed := make(chan struct{})
 		go func() { tb.WaitForClose(); close(closed) }()
+		didClose := false
 		select {
 		case <-closed:
+			didClose = true
 		case <-time.After(60 * time.Second):
 		}
+		var rtt time.Duration
+		if rt, ok := tb.(*Reliable); ok && didClose {
+			rt.l.Lock()
+			rtt = rt.sender.RTT
+			rt.l.Unlock()
+		}
 		r.mu.Lock()
+		if w.Rel && didClose {
+			r.shut[id] = c09Shut{r.p.Net.Elapsed(), rtt, key}
+		}
 		if cur, ok := r.live[w.Side][relIdx][id]; ok && cur.key == key {
 			delete(r.live[w.Side][relIdx], id)
 		}
@@ -460,7 +515,7 @@ func (r *c09Run) handle(side int, tb Tube) {
 }
 
 func c09Scenario(c c09Case, v *vlib.Verdict) {
-	r := &c09Run{c: c, v: v, seen: map[string]int{}, opened: map[string]bool{}, idOf: map[string]byte{}, born: map[byte][]time.Duration{}, pkts: map[byte][]c09Pkt{}}
+	r := &c09Run{c: c, v: v, seen: map[string]int{}, opened: map[string]bool{}, idOf: map[string]byte{}, bornOf: map[string]time.Duration{}, shut: map[byte]c09Shut{}, prevOf: map[string]c09Shut{}, born: map[byte][]time.Duration{}, pkts: map[byte][]c09Pkt{}}
 	for s := 0; s < 2; s++ {
 		for k := 0; k < 2; k++ {
 			r.live[s][k] = map[byte]c09Live{}
@@ -472,7 +527,7 @@ func c09Scenario(c c09Case, v *vlib.Verdict) {
 			return
 		}
 		r.mu.Lock()
-		r.pkts[pkt[0]] = append(r.pkts[pkt[0]], c09Pkt{sent, dlv})
+		r.pkts[pkt[0]] = append(r.pkts[pkt[0]], c09Pkt{sent, dlv, dir, len(pkt) > 1 && pkt[1]&1 != 0 && pkt[1]&4 != 0})
 		r.mu.Unlock()
 	}
 	go r.acceptor(0)
@@ -488,25 +543,36 @@ func c09Scenario(c c09Case, v *vlib.Verdict) {
 	case <-time.After(10 * time.Minute):
 		v.Label("scenario-cut-after-10-virtual-minutes")
 	}
-	// on a faithful network every reliable incarnation that was opened must have been offered exactly once
 	faithful := c.AB.LossPct == 0 && c.BA.LossPct == 0 && len(c.AB.Outages) == 0 && len(c.BA.Outages) == 0 && c.AB.BurstLen == 0 && c.BA.BurstLen == 0
+	// every reliable incarnation that was opened and whose open request reached the other side (network log) must
+	// have been offered by Accept there - whatever the loss pattern
 	r.mu.Lock()
 	never := ""
-	if v.OK() && faithful {
+	if v.OK() {
 		for key := range r.opened {
-			if r.seen[key] == 0 && (never == "" || key < never) {
+			if r.seen[key] != 0 || (never != "" && key > never) {
+				continue
+			}
+			var side int
+			fmt.Sscanf(key, "s%d.", &side)
+			if r.reqDelivered(side, r.idOf[key], r.bornOf[key]) {
 				never = key
 			}
 		}
 	}
-	neverID := r.idOf[never]
 	r.mu.Unlock()
 	if never != "" {
-		if why, ok := r.crossed(neverID); ok {
-			r.fail("C09:incarnations-of-one-id-confused:reliable", "[C09:tube-never-offered; %s] reliable incarnation %s (id %d) was opened and written on a loss-free network but never offered by Accept on the other side", why, never, neverID)
-		} else {
-			v.Failf("C09:tube-never-offered", "reliable incarnation %s was opened and written on a loss-free network but never offered by Accept on the other side", never)
+		// in the late-arrival regime this is one more face of the open finding (the predecessor's tube object, kept alive
+		// by frames that arrive seconds late, answers the successor's open request); in the bounded regime nothing is
+		// listed: a reaper that releases identifiers too early shows exactly here
+		sig := "C09:tube-never-offered"
+		if !faithful {
+			sig += ":lossy-network"
 		}
+		r.mu.Lock()
+		pv, born := r.prevOf[never], r.bornOf[never]
+		r.mu.Unlock()
+		r.fail(sig, "reliable incarnation %s (id %d, created at %v) was opened and written, its open request reached the other side, but it was never offered by Accept there; predecessor on this id: %s, closed on the opening side at %v with RTT %v (identifier kept for 4 x RTT)", never, r.idOf[never], born, pv.key, pv.at, pv.rtt)
 	}
 	// classification
 	reuse, concurrent := false, len(c.Workers) >= 2
@@ -589,5 +655,5 @@ func c09GenCase(t *rapid.T) c09Case {
 
 func TestVerifC09Tubes(t *testing.T) {
 	vQuiet()
-	vlib.Drive(t, vlib.Spec[c09Case]{ID: "C09", Quick: 4000, Gen: c09GenCase, Run: c09RunFn(t)})
+	vlib.Drive(t, vlib.Spec[c09Case]{ID: "C09", Quick: 12000, Gen: c09GenCase, Run: c09RunFn(t)})
 }
